@@ -191,6 +191,14 @@ func genCase(t *rapid.T) Case {
 			k1, k2 := rapid.Int64Range(1, 20).Draw(t, "k1"), rapid.Int64Range(-20, 40).Draw(t, "k2")
 			b := pt{a[0] + k1*d[0], a[1] + k1*d[1]}
 			cc := pt{a[0] + k2*d[0], a[1] + k2*d[1]}
+			if rapid.IntRange(0, 2).Draw(t, "outandback") == 0 {
+				// a ring that runs out along a path with corners and back along the same path:
+				// no area, but triangles of either sign on the way
+				e := pt{b[0] + rapid.Int64Range(-30, 30).Draw(t, "ex"), b[1] + rapid.Int64Range(-30, 30).Draw(t, "ey")}
+				f := pt{e[0] + rapid.Int64Range(-30, 30).Draw(t, "fx"), e[1] + rapid.Int64Range(-30, 30).Draw(t, "fy")}
+				c.Polys = append(c.Polys, [][]pt{{a, b, e, f, e, b, a}})
+				continue
+			}
 			c.Polys = append(c.Polys, [][]pt{{a, b, cc, a}})
 		}
 	case "far-members":
@@ -607,6 +615,7 @@ func propPolygons(c Case, l geom.Layout, polys [][][]pt, what string) error {
 		// rounding, and the rounding of the running sums, is what "within rounding" means
 		// for an area-weighted mean) times the triangle's tripled centroid
 		sumx, sumy := new(big.Rat), new(big.Rat)
+		sumar := new(big.Rat)
 		n := int64(0)
 		for _, p := range polys {
 			for _, r := range p {
@@ -615,6 +624,7 @@ func propPolygons(c Case, l geom.Layout, polys [][][]pt, what string) error {
 					a, b := ep(r[i]), ep(r[i+1])
 					n++
 					ar := exact.Add(rabs(exact.Mul(exact.Sub(a.X, base.X), exact.Sub(b.Y, base.Y))), rabs(exact.Mul(exact.Sub(b.X, base.X), exact.Sub(a.Y, base.Y))))
+					sumar.Add(sumar, ar)
 					// the sum of the three ordinates is exact on whole numbers; on decimal
 					// ordinates it rounds, by a fraction of the ordinates, not of their sum
 					if curDiv > 1 {
@@ -626,6 +636,14 @@ func propPolygons(c Case, l geom.Layout, polys [][][]pt, what string) error {
 					sumy.Add(sumy, exact.Mul(ar, rabs(exact.Add(exact.Add(base.Y, a.Y), b.Y))))
 				}
 			}
+		}
+		// An exact area that is not zero but lies within the rounding of its own sum (a
+		// sliver: decimal ordinates that were collinear as whole numbers) is not an area any
+		// floating-point sum can tell from zero, and a first-order bound says nothing about
+		// a quotient by it: no statement is checked there.
+		if noise := exact.Mul(exact.Mul(big.NewRat(64*(n+8), 1), u53), sumar); rabs(A2).Cmp(noise) <= 0 {
+			ev.Default.Count("area_within_its_own_rounding_skipped", 1)
+			return nil
 		}
 		den := exact.Mul(three, rabs(A2))
 		k := exact.Mul(big.NewRat(3*(n+8), 1), u53)
